@@ -27,7 +27,10 @@ Negative control (never asserted equal): a third twin runs op() inside
 twin B in at least one case (``negative_control_differs``), which shows that the
 histories really leave observable pending state.
 
-Guards: lazy loads are issued only from persistent objects (a lazy load on a *pending*
+Guards: a many-to-one lazy load or a get() served from the identity map emits no statement
+and therefore does not autoflush (by design): such reads are counted
+(``reads_without_sql`` / ``skipped_get-of-present-identity``) and not judged; lazy loads
+are issued only from persistent objects (a lazy load on a *pending*
 object does not autoflush by design); all selects carry a total ORDER BY; histories whose
 flush fails (e.g. the unique one-to-one FK) are held when both twins raise.
 
@@ -600,12 +603,18 @@ def one_case(ctx, sa, orm, R, zoo, engines, spies, hist, rd, ctl, origin):
     if b.get("error_phase") == "flush":
         # the pending state cannot be flushed: the autoflush twin must fail too
         ctx.count("flush_fails_in_reference")
-        if "error" not in a:
+        if "error" not in a and any(is_select(x[0]) for x in a.get("read_log", [])):
             ctx.violation(f"autoflush-skipped-failing-flush:{kind}",
                           f"explicit flush raised {b['error']} but the autoflush twin returned {a.get('result')!r}",
                           dict(witness, twin_a=a, twin_b=b))
         return
-    if "error" not in b and b.get("read_dml"):
+    if rd["kind"] == "lazy" and "error" not in a and not any(is_select(x[0]) for x in a.get("read_log", [])):
+        # a many-to-one served from the identity map: no statement, hence no autoflush is
+        # due (and the foreign key attribute it is keyed on is only synchronised by a
+        # flush) - outside the property, which speaks of loads that query the database
+        ctx.count("reads_without_sql")
+        return
+    if "error" not in b and (b.get("read_dml") or b.get("left_pending")):
         # the explicit flush() did not flush everything: the read's own autoflush found
         # more work.  The reference twin is not a reference then; classify the cause.
         mech = classify_incomplete_flush(hist)
